@@ -33,13 +33,38 @@ def gen_ops(tier, rng):
     for m in ms:
         ops.append((f"tab leo16 mul {m}", {"cat": "leo16:mul"}))
         ops.append((f"tab leo16 mul256 {m}", {"cat": "leo16:mul256"}))
+    # matrix.go: the package's Invert and generator builders = the model's (go-vs-model), and the code REGENERATED from the
+    # current matrix.go / reedsolomon.go by the translator agrees with the model on the same input (flag gen=)
+    for n in list(range(1, 13)) + [16, 20, 31]:
+        for kind in ["rand", "sing", "sparse", "swap"]:
+            for _ in range(1 if tier == "quick" else 6):
+                ops.append((f"minv {n} {rng.randrange(1, 1<<30)} {kind}", {"cat": "matrix-invert:" + kind}))
+    shapes = [(1, 2), (2, 3), (3, 5), (4, 7), (5, 8), (10, 14), (17, 20), (12, 24), (30, 40)] + ([(50, 70), (100, 120)] if tier == "thorough" else [])
+    for (d, t) in shapes:
+        for kind in ["default", "cauchy", "par1", "vandermonde"]:
+            ops.append((f"bmat {kind} {d} {t}", {"cat": "matrix-build:" + kind}))
+        ops.append((f"bmat xor {d} {d + 1}", {"cat": "matrix-build:xor"}))
+    # the scalar field functions of galois.go / leopard.go over complete input blocks: package = specification (go-vs-model)
+    # and regenerated function = specification (flag gen=)
+    for a in (range(256) if tier == "thorough" else [0, 1, 2, 3, 29, 142, 255] + [rng.randrange(256) for _ in range(12)]):
+        ops.append((f"fn galdiv {a}", {"cat": "fn:galDivide"}))
+        ops.append((f"fn galexp {a}", {"cat": "fn:galExp"}))
+    ops.append(("fn galinv 0", {"cat": "fn:galOneOver"}))
+    for blk in ([0, 1, 31, 63] if tier == "quick" else range(64)):
+        ops.append((f"fn ceilpow2 {blk}", {"cat": "fn:ceilPow2"}))
     return ops
+
+
+def flag_check(line, meta, flags):
+    if line.split()[0] in ("minv", "bmat", "fn") and flags.get("gen") != "1":
+        return "the code regenerated from the Go source (RSV.Gen.MatrixGo / RSV.Gen.Funcs) disagrees with the model on this input"
+    return None
 
 
 def execute(ops, ctx):
     def key(line, meta, g):
-        return line if g and g.startswith("ok") and "distinct=1 " not in g else None
-    return C.execute_diff(ops, ctx, key)
+        return line if g and (g.startswith("ok") or g == "singular") and "distinct=1 " not in g else None
+    return C.execute_diff(ops, ctx, key, flag_check)
 
 
 def search(problems, ctx, rng):
